@@ -61,7 +61,7 @@ def showSnap (r : Reg) : String :=
     let m := match rt.mid with | none => "~" | some b => hex b
     let ps := if rt.pts.isEmpty then "-" else ".".intercalate (rt.pts.map toString)
     s!"{m}/{ps}/{rt.lid}/{b01 rt.provisional}")
-  s!"S{";".intercalate s}|R{";".intercalate (hx r.byRid)}|M{";".intercalate (hx r.byMid)}|T{";".intercalate t}"
+  s!"S{";".intercalate s}|R{";".intercalate (hx r.byRid)}|M{";".intercalate (hx r.byMid)}|T{";".intercalate t}|W{r.sweepAt}"
 
 def demuxRun (ops : List String) : String :=
   let rec go (r : Reg) (ops : List String) (acc : List String) : List String :=
